@@ -101,7 +101,12 @@ def handle (op : String) (args : List String) : Option String := do
   | "c17.holds.rotate_mul" => do       -- args: out12 = (q1*q2).rotate v ; outseq = q1.rotate(q2.rotate v)
       pure (boolStr (allClose tol (fs.take 3) (fs.drop 3)))
   | "c17.holds.rotation_to" => do      -- args: a b out(=RotationTo(a,b).Rotate(a))   unit a b
-      pure (boolStr (allClose 1e-6 ((fs.drop 3).take 3) (fs.drop 6)))
+      -- directions closer than the documented snap (|a·b| > 0.999999, i.e. within 0.081°) are treated as (anti)parallel
+      -- by design: there the image of a may miss b by the snap angle (≤ 1.5e-3); everywhere else it must hit b
+      let a ← v3Of (fs.take 3); let b ← v3Of ((fs.drop 3).take 3)
+      let d := (a.Dot b).abs
+      let t : Float := if d > 0.999999 then 1.5e-3 else 1e-6
+      pure (boolStr (allClose t ((fs.drop 3).take 3) (fs.drop 6)))
   | "c17.holds.trs" => do              -- args: p r s v out ; out = R(S∘v)+T
       let p ← v3Of (fs.take 3); let r ← qOf ((fs.drop 3).take 4); let s ← v3Of ((fs.drop 7).take 3)
       let v ← v3Of ((fs.drop 10).take 3)
